@@ -149,3 +149,125 @@ func defaultEncStr(t *lalr.DefaultEnc) string {
 func dispEncStr(o *lalr.DisplacementEnc) string {
 	return sx.List(sx.Ints(o.DefGoto), sx.Ints(o.Goto), sx.Ints(o.DefAct), sx.Ints(o.Action), sx.Int(o.Base), sx.Ints(o.Table), sx.Ints(o.Check))
 }
+
+// productive marks the nonterminals that derive some terminal string.
+func (g *cfg) productive() []bool {
+	prod := make([]bool, g.nterms+g.nnonterms)
+	for i := 0; i < g.nterms; i++ {
+		prod[i] = true
+	}
+	for changed := true; changed; {
+		changed = false
+		for _, r := range g.rules {
+			if prod[r.lhs] {
+				continue
+			}
+			ok := true
+			for _, s := range r.rhs {
+				if !prod[s] {
+					ok = false
+					break
+				}
+			}
+			if ok {
+				prod[r.lhs] = true
+				changed = true
+			}
+		}
+	}
+	return prod
+}
+
+// randomSentence expands sym by random productive rules; budget bounds the number of expansions.
+func (g *cfg) randomSentence(rng *rand.Rand, sym int, prod []bool, budget *int) []int {
+	if sym < g.nterms {
+		return []int{sym}
+	}
+	var cands []int
+	for i, r := range g.rules {
+		if r.lhs != sym {
+			continue
+		}
+		ok := true
+		for _, s := range r.rhs {
+			if !prod[s] {
+				ok = false
+			}
+		}
+		if ok {
+			cands = append(cands, i)
+		}
+	}
+	if len(cands) == 0 {
+		return nil
+	}
+	*budget--
+	ri := cands[rng.Intn(len(cands))]
+	if *budget < 0 {
+		// out of budget: take the rule with the fewest nonterminals to finish quickly
+		best, bestN := cands[0], 1<<30
+		for _, c := range cands {
+			n := 0
+			for _, s := range g.rules[c].rhs {
+				if s >= g.nterms {
+					n++
+				}
+			}
+			if n < bestN {
+				best, bestN = c, n
+			}
+		}
+		ri = best
+		if *budget < -200 {
+			return nil
+		}
+	}
+	var out []int
+	for _, s := range g.rules[ri].rhs {
+		part := g.randomSentence(rng, s, prod, budget)
+		if part == nil && s >= g.nterms {
+			return nil
+		}
+		out = append(out, part...)
+	}
+	if out == nil {
+		out = []int{}
+	}
+	return out
+}
+
+// sampleInputs returns token strings for input nonterminal nt: sentences, mutants, random strings.
+func (g *cfg) sampleInputs(rng *rand.Rand, nt int, n int) [][]int {
+	prod := g.productive()
+	var ret [][]int
+	for i := 0; i < n; i++ {
+		var s []int
+		if prod[nt] && rng.Intn(4) != 0 {
+			budget := 2 + rng.Intn(12)
+			s = g.randomSentence(rng, nt, prod, &budget)
+		}
+		if s == nil || rng.Intn(5) == 0 {
+			s = make([]int, rng.Intn(6))
+			for j := range s {
+				s[j] = 1 + rng.Intn(g.nterms-1)
+			}
+		} else if rng.Intn(3) == 0 && len(s) > 0 { // mutate a sentence
+			s = append([]int{}, s...)
+			switch rng.Intn(3) {
+			case 0:
+				p := rng.Intn(len(s))
+				s = append(s[:p], s[p+1:]...)
+			case 1:
+				p := rng.Intn(len(s) + 1)
+				s = append(s[:p:p], append([]int{1 + rng.Intn(g.nterms-1)}, s[p:]...)...)
+			default:
+				s[rng.Intn(len(s))] = 1 + rng.Intn(g.nterms-1)
+			}
+		}
+		if len(s) > 40 {
+			s = s[:40]
+		}
+		ret = append(ret, s)
+	}
+	return ret
+}
